@@ -1288,9 +1288,11 @@ func sweep(e *Env, emb []embList) {
 	if !e.V.LongLived {
 		return
 	}
-	if _, done := swept.LoadOrStore(e.V.Name, true); done {
+	if _, done := swept.Load(e.V.Name); done {
 		return
 	}
+	// (marked as done only after a complete pass: a violation found here fails every case of
+	// this process in the same way, so the driver sees a stable, minimal failure)
 	c, v := e.C, e.V
 	saved := c.Src
 	c.Src = &detSrc{s: 1818}
@@ -1366,6 +1368,7 @@ func sweep(e *Env, emb []embList) {
 		checkMomentumBeforeTime(e, ts)
 		calls++
 	}
+	swept.Store(v.Name, true)
 	c.Class("boundary-sweep-over-" + v.Name)
 	c.R.Count("boundary_sweep_calls", calls)
 }
